@@ -118,17 +118,17 @@ theorem C11_exact (cfg : Cfg) (w : World) (t : Nat) (obs : Nat → List Nat × L
 theorem C11_exact_repaired : ExactStatement Cfg.repaired := by
   intro w t obs fuel hwf hfuel hok
   obtain ⟨_, pre, _, hlog, _, hfull⟩ := C11_exact Cfg.repaired w t obs fuel hwf
-    ⟨Or.inl rfl, Or.inl rfl⟩ hfuel
+    ⟨Or.inl rfl, Or.inl rfl, Or.inl rfl⟩ hfuel
   rw [hlog, hfull hok]
 
 /-- the tree as pinned: the claim holds when nothing hangs on `failed`/`true`/`false` of the data
 ancestors and the driving parent is a workflow or has nothing on its own output signals -/
 theorem C11_exact_partial (w : World) (t : Nat) (obs : Nat → List Nat × List Nat) (fuel : Nat)
-    (hwf : WF w) (h1 : ClosureEmitsOnlyRan w t) (h2 : DriverSilent w t)
+    (hwf : WF w) (h1 : ClosureEmitsOnlyRan w t) (h2 : DriverSilent w t) (h3 : DriverLocal w t)
     (hfuel : (obs t).2.length + 1 ≤ fuel)
     (hok : (pull Cfg.pinned w t false obs fuel).2 = .ok) :
     (pull Cfg.pinned w t false obs fuel).1.log = w.log ++ executed w.hit (obs t).2 := by
-  obtain ⟨_, pre, _, hlog, _, hfull⟩ := C11_exact Cfg.pinned w t obs fuel hwf ⟨Or.inr h1, Or.inr h2⟩ hfuel
+  obtain ⟨_, pre, _, hlog, _, hfull⟩ := C11_exact Cfg.pinned w t obs fuel hwf ⟨Or.inr h1, Or.inr h2, Or.inr h3⟩ hfuel
   rw [hlog, hfull hok]
 
 /-! ### concrete worlds (non-vacuity and witnesses) -/
@@ -145,8 +145,9 @@ theorem exChain_wf : WF exChain := ⟨mkG_gwf _, fun _ => by simp [exChain, worl
 
 example : closureOf exChain 2 = some [2, 1, 0] := by decide
 example : LevelHyp Cfg.pinned exChain 2 := by
-  refine ⟨Or.inr ?_, Or.inr ?_⟩
+  refine ⟨Or.inr ?_, Or.inr ?_, Or.inr ?_⟩
   · intro i _; exact mkG_silent _ (by decide) (by decide) i
+  · intro p hp; simp [exChain, world0] at hp
   · intro p hp; simp [exChain, world0] at hp
 example : (pull Cfg.pinned exChain 2 false exObs 10).2 = .ok ∧
     (pull Cfg.pinned exChain 2 false exObs 10).1.log = [0, 1, 2] := by decide
@@ -275,6 +276,44 @@ theorem C11_order_witness :
     have := congrFun (h exOrder 1 false exIfObs 10 exOrder_wf) (ch 0 2)
     revert this; decide
 
+/-! ## an executor on the parent that would have to drive the upstream run -/
+
+/-- (repair `refuseDriverExec`) when something upstream has to be run and the parent that would
+drive that run has an executor, the pull is refused and the world is unchanged -/
+theorem C11_driver_exec_refused (cfg : Cfg) (w : World) (t x p : Nat) (obs : Nat → List Nat × List Nat)
+    (fuel : Nat) (cl : List Nat) (hr : cfg.refuseDriverExec = true) (hcl : closureOf w t = some cl)
+    (hx : Reach w.deps t x) (hxt : x ≠ t) (hp : w.parent t = some p) (he : w.hasExec p = true) :
+    pull cfg w t false obs fuel = (w, .execRefused) := by
+  have hd : driverExecRefused cfg w t cl = true := by
+    simp [driverExecRefused, hr, hp, he]
+    exact ⟨x, (closure_spec w t cl hcl x).mpr hx, hxt⟩
+  simp [pull, upstreamLevels, upstream, hcl, hd]
+
+/-- children `0 → 1` of a workflow `2` that has an executor -/
+def exDrvExec : World :=
+  { world0 with n := 3, g := mkG [], deps := fun i => if i = 1 then [0] else [],
+                parent := fun i => if i < 2 then some 2 else none, isWf := fun i => i = 2,
+                hasExec := fun i => i = 2 }
+
+/-- as the tree is (and was pinned): `child.pull()` without the parent scopes is NOT refused although
+the parent that drives the upstream run has an executor — the parent's run is submitted, nothing
+upstream has executed when the target runs on its old input, yet the pull returns; with the parent
+scopes (`child()`) the same pull is refused at the parent's level; with the repair both are -/
+theorem C11_driver_exec_witness :
+    let obs : Nat → List Nat × List Nat := fun a => if a = 2 then ([2], [2]) else ([0, 1], [0, 1])
+    let now : Cfg := { Cfg.repaired with refuseDriverExec := false }
+    (pull now exDrvExec 1 false obs 10).2 = .ok ∧ (pull now exDrvExec 1 false obs 10).1.log = [1] ∧
+      (pull now exDrvExec 1 true obs 10).2 = .execRefused ∧
+      (pull Cfg.repaired exDrvExec 1 false obs 10).2 = .execRefused ∧
+      (pull Cfg.repaired exDrvExec 1 false obs 10).1.log = [] ∧
+      ¬ ExactStatement now := by
+  refine ⟨by decide, by decide, by decide, by decide, by decide, ?_⟩
+  intro h
+  have := h exDrvExec 1 (fun a => if a = 2 then ([2], [2]) else ([0, 1], [0, 1])) 10
+    ⟨mkG_gwf _, fun i => by simp only [exDrvExec, world0]; split <;> simp; omega⟩ (by decide) (by decide)
+  revert this
+  decide
+
 /-! ## the temporary wiring leaves no trigger state behind -/
 
 /-- The linear chain only ever calls plain `run` inputs, so whatever the outcome of the pull — also
@@ -293,7 +332,7 @@ theorem C11_no_trigger_state_repaired (w : World) (t : Nat) (parents : Bool)
     (obs : Nat → List Nat × List Nat) (fuel : Nat) (hwf : WF w)
     (hfuel : ∀ a ∈ pullLevels w t parents, (obs a).2.length + 1 ≤ fuel) :
     (pull Cfg.repaired w t parents obs fuel).1.recv = w.recv :=
-  C11_no_trigger_state _ w t parents obs fuel hwf (fun _ _ => ⟨Or.inl rfl, Or.inl rfl⟩) hfuel
+  C11_no_trigger_state _ w t parents obs fuel hwf (fun _ _ => ⟨Or.inl rfl, Or.inl rfl, Or.inl rfl⟩) hfuel
 
 /-- the diamond `0 → {1, 2} → 3` wired the way a workflow wires its children (every node waits on
 its all-of trigger for the `ran` of the nodes it takes data from) instead of the linear chain -/
@@ -402,7 +441,7 @@ theorem C11_parents_repaired (w : World) (t : Nat) (obs : Nat → List Nat × Li
     (pull Cfg.repaired w t true obs fuel).1.log =
       w.log ++ executed w.hit ((pullLevels w t true).flatMap (fun a => (obs a).2.dropLast) ++ [t]) := by
   obtain ⟨_, pre, _, hlog, _, hfull⟩ := C11_parents Cfg.repaired w t obs fuel hwf
-    (fun _ _ => ⟨Or.inl rfl, Or.inl rfl⟩) hfuel
+    (fun _ _ => ⟨Or.inl rfl, Or.inl rfl, Or.inl rfl⟩) hfuel
   rw [hlog, hfull hok]
 
 /-- a workflow `0` holding `2 → 1` where `1` is a macro holding `4 → 3`; `1.ran` is wired to the
@@ -440,6 +479,8 @@ end PwVerif.C11
 #print axioms PwVerif.C11.C11_restored_ordered
 #print axioms PwVerif.C11.C11_restored_ordered_repaired
 #print axioms PwVerif.C11.C11_order_witness
+#print axioms PwVerif.C11.C11_driver_exec_refused
+#print axioms PwVerif.C11.C11_driver_exec_witness
 #print axioms PwVerif.C11.C11_no_trigger_state
 #print axioms PwVerif.C11.C11_no_trigger_state_repaired
 #print axioms PwVerif.C11.C11_allof_stale_witness
